@@ -362,29 +362,36 @@ func put(m *message.Message, v Val) error {
 	}
 }
 
-// RealEncode writes the values through the real Put* calls to a real stream
-// and returns what the reference codec reads back from the wire.
+// RealEncode is realEncodeRaw without the raw wire bytes.
 func RealEncode(vals []Val, enc bool, salt int, stt *Stats) ([]byte, int, error) {
+	out, n, _, err := realEncodeRaw(vals, enc, salt, stt)
+	return out, n, err
+}
+
+// realEncodeRaw writes the values through the real Put* calls to a real stream
+// and returns what the reference codec reads back from the wire.
+func realEncodeRaw(vals []Val, enc bool, salt int, stt *Stats) ([]byte, int, []byte, error) {
 	conn := wire.NewBufConn("sender")
 	st := stream.NewStream(conn)
 	if enc {
 		if err := st.SetSymmetricKey(key(salt)); err != nil {
-			return nil, 0, err
+			return nil, 0, nil, err
 		}
 	}
 	m := message.NewMessageForStream(st)
 	for _, v := range vals {
 		stt.Puts++
 		if err := put(m, v); err != nil {
-			return nil, 0, fmt.Errorf("Put %s: %w", v, err)
+			return nil, 0, nil, fmt.Errorf("Put %s: %w", v, err)
 		}
 	}
 	if err := m.FinishMessage(bg); err != nil {
-		return nil, 0, fmt.Errorf("FinishMessage: %w", err)
+		return nil, 0, nil, fmt.Errorf("FinishMessage: %w", err)
 	}
-	frames, rest := refcodec.ParseFrames(conn.TakeOut())
+	raw := conn.TakeOut()
+	frames, rest := refcodec.ParseFrames(raw)
 	if len(rest) != 0 {
-		return nil, 0, fmt.Errorf("sender output does not parse as frames (%d bytes left)", len(rest))
+		return nil, 0, nil, fmt.Errorf("sender output does not parse as frames (%d bytes left)", len(rest))
 	}
 	var op *refcodec.Opener
 	if enc {
@@ -396,16 +403,16 @@ func RealEncode(vals []Val, enc bool, salt int, stt *Stats) ([]byte, int, error)
 		if enc {
 			pt, err := op.Open(f)
 			if err != nil {
-				return nil, 0, fmt.Errorf("frame %d does not open with the reference decryptor: %v", i, err)
+				return nil, 0, nil, fmt.Errorf("frame %d does not open with the reference decryptor: %v", i, err)
 			}
 			body = pt
 		}
 		if (f.End == 1) != (i == len(frames)-1) {
-			return nil, 0, fmt.Errorf("frame %d of %d carries end flag %d", i, len(frames), f.End)
+			return nil, 0, nil, fmt.Errorf("frame %d of %d carries end flag %d", i, len(frames), f.End)
 		}
 		out = append(out, body...)
 	}
-	return out, len(frames), nil
+	return out, len(frames), raw, nil
 }
 
 // Reframe cuts b after the given positions and renders the frames with the
@@ -703,25 +710,26 @@ func sortInts(a []int) {
 	}
 }
 
-func realEncodeStringBytes(content []byte, enc bool, salt int, stt *Stats) ([]byte, int, error) {
+func realEncodeStringBytes(content []byte, enc bool, salt int, stt *Stats) ([]byte, int, []byte, error) {
 	conn := wire.NewBufConn("sender")
 	st := stream.NewStream(conn)
 	if enc {
 		if err := st.SetSymmetricKey(key(salt)); err != nil {
-			return nil, 0, err
+			return nil, 0, nil, err
 		}
 	}
 	m := message.NewMessageForStream(st)
 	stt.Puts++
 	if err := m.PutStringBytes(bg, content); err != nil {
-		return nil, 0, fmt.Errorf("PutStringBytes: %w", err)
+		return nil, 0, nil, fmt.Errorf("PutStringBytes: %w", err)
 	}
 	if err := m.FinishMessage(bg); err != nil {
-		return nil, 0, fmt.Errorf("FinishMessage: %w", err)
+		return nil, 0, nil, fmt.Errorf("FinishMessage: %w", err)
 	}
-	frames, rest := refcodec.ParseFrames(conn.TakeOut())
+	raw := conn.TakeOut()
+	frames, rest := refcodec.ParseFrames(raw)
 	if len(rest) != 0 {
-		return nil, 0, fmt.Errorf("sender output does not parse as frames (%d bytes left)", len(rest))
+		return nil, 0, nil, fmt.Errorf("sender output does not parse as frames (%d bytes left)", len(rest))
 	}
 	var op *refcodec.Opener
 	if enc {
@@ -733,11 +741,11 @@ func realEncodeStringBytes(content []byte, enc bool, salt int, stt *Stats) ([]by
 		if enc {
 			pt, err := op.Open(f)
 			if err != nil {
-				return nil, 0, fmt.Errorf("frame %d does not open with the reference decryptor: %v", i, err)
+				return nil, 0, nil, fmt.Errorf("frame %d does not open with the reference decryptor: %v", i, err)
 			}
 			body = pt
 		}
 		out = append(out, body...)
 	}
-	return out, len(frames), nil
+	return out, len(frames), raw, nil
 }
